@@ -141,6 +141,7 @@ struct Engine {
     Result& res;
     u16 base;
     bool large = false; // large-period layer: sparse Skip(k) alphabet, depth-bounded
+    bool with_callback = true;
     std::set<u64> digests;
 
     Engine(Result& r, u16 base) : res(r), base(base) {}
@@ -154,7 +155,8 @@ struct Engine {
     void Load(const Full& f) {
         rig = std::make_unique<Rig>();
         dev.SetInterruptHandler([this]() { ++obs.irq; });
-        dev.SetAudioCallback([this](std::array<std::int16_t, 2> fr) { obs.frames.push_back(fr); });
+        if (with_callback) // without a listener (the second port of a Teakra never has one) frames are unobservable, everything else is not
+            dev.SetAudioCallback([this](std::array<std::int16_t, 2> fr) { obs.frames.push_back(fr); });
         dev.transmit_clock_config = 0;
         dev.transmit_period = f.b.period;
         dev.transmit_timer = f.b.timer;
@@ -186,8 +188,8 @@ struct Engine {
                    s.timer + 1 >= s.period ? "last" : "early");
     }
     std::string Replay(const BS& s, const Event& e) const {
-        return Fmt("c16 %u %u %u %u %u %u base %u ev %d %llu", s.period, s.timer, s.enable, s.empty,
-                   s.full, s.size, base, e.kind, (unsigned long long)e.arg);
+        return Fmt("c16 %u %u %u %u %u %u base %u ev %d %llu%s", s.period, s.timer, s.enable, s.empty,
+                   s.full, s.size, base, e.kind, (unsigned long long)e.arg, with_callback ? "" : " nocb");
     }
 
     std::vector<Event> Enabled(const BS& s) {
@@ -270,6 +272,8 @@ struct Engine {
         Obs got_obs = obs;
         ++res.transitions;
         ++res.traces_validated;
+        if (!with_callback)
+            ref_obs.frames.clear();
         if (!(got == ref) || !(got_obs == ref_obs)) {
             std::string k = e.kind == EvSkip ? (e.arg == 0 ? "Skip(0)" : "Skip(k>0)") : Show(e);
             res.AddViolation("c16:model:" + k + ":" + Cls(s),
@@ -405,6 +409,7 @@ inline int RunReplay(const std::string& r, Result& res) {
         return 2;
     BS s{(u16)a[0], (u16)a[1], (u16)a[2], (u16)a[3], (u16)a[4], (u16)a[5]};
     Engine eng(res, (u16)base);
+    eng.with_callback = r.find(" nocb") == std::string::npos;
     bool ok;
     BS n = eng.Step(s, Event{kind, arg}, ok);
     std::printf("replay: %s --%s--> %s\n", Show(s).c_str(), Show(Event{kind, arg}).c_str(),
@@ -438,6 +443,15 @@ inline void Run(const Args& args, Result& res) {
             eng.Explore(p, large_depth);
         eng.large = false;
         eng.CoreTimingLayer();
+        dist += eng.digests.size();
+    }
+    {
+        // the same machine without an audio listener (how the second port of a Teakra runs): frames are not observable, the
+        // period clock, the flags, the queue, the empty interrupt and Skip(k) == k cycles are
+        Engine eng(res, bases[0]);
+        eng.with_callback = false;
+        for (u16 p : {(u16)1, (u16)2, (u16)3, (u16)5})
+            eng.Explore(p);
         dist += eng.digests.size();
     }
     res.distinct_nontrivial = dist;
